@@ -211,12 +211,16 @@ Inductive case :=
      [edns; recorder; cache] entered wire-born ([strict]) or decoded.  [hops] = the stored headers
      the reply was produced from: the exact entry's ([kind] 0), or the alias entry's followed by
      every hop's when composeWireChase served ([kind] 1); [] when an alias was completed on the Msg
-     path ([kind] 2: the product is observed, its header not predicted); [kind] 3 = the RFC 8020 cut composer
-     served, 4 = the RFC 9520 cached-failure composer ([hops] = [] for both).  [wtry] = the body the
+     path ([kind] 2: the product is observed, its header not predicted — no case of the drivers is of
+     this kind any more); [kind] 3 = the RFC 8020 cut served ([hops] = the header of the stored proof
+     message), 4 = the RFC 9520 cached failure, 8 = an RD = 0 query refused before any lookup.
+     Session 5: every kind covers the byte path AND the Msg path — kind 0 with [subs] = what the
+     internal sub-pipeline answered to the Msg-path alias chase, in order (AD, rcode, carried
+     records); [hops] = [] for kinds 4 and 8.  [wtry] = the body the
      cache handed to WriteWire / CommitWire, decoded, with WireInfo.AuthenticatedData, HasDNSSEC,
      the EDE and the body's length; [dn] = the message it handed to WriteMsg (after a declined byte
      path, or instead of it); then the octets the transport sent, as in the other cases *)
-| CaseHit (tr : transport) (c : cfg) (nt : ntab) (q : msg) (strict : bool) (kind : N) (hops : list hdr)
+| CaseHit (tr : transport) (c : cfg) (nt : ntab) (q : msg) (strict : bool) (kind : N) (hops : list hdr) (subs : list sub)
           (wtry : option (msg * bool * bool * option eopt * N)) (dn : option msg)
           (obs : option msg) (rlen oulen oclen : N).
 
@@ -281,21 +285,62 @@ Definition hit_reply (nt : ntab) (tr : transport) (c : cfg) (q : msg) (strict : 
 Definition hit_producer (kind : N) (hops : list hdr) : option producer :=
   if (kind =? 0) || (kind =? 1) then Some (PEntries hops)
   else if kind =? 3 then Some PCut else if kind =? 4 then Some PFailure else None.
-Definition hit_producer_ok (q : msg) (kind : N) (hops : list hdr)
+(* the Msg-path twin of each kind (session 5); a byte-path alias chase (kind 1) has none: it is served
+   as bytes or the case is of kind 0 *)
+Definition hit_mproducer (kind : N) (hops : list hdr) (subs : list sub) : option mproducer :=
+  if kind =? 0 then match hops with [st] => Some (MEntry st subs) | _ => None end
+  else if kind =? 3 then match hops with [stc] => Some (MCut stc) | _ => None end
+  else if kind =? 4 then Some MFailure else if kind =? 8 then Some MNoRec else None.
+(* whatever the cache hands over carries the request's own first question, spelling included *)
+Definition hit_q_ok (q : msg) (wtry : option (msg * bool * bool * option eopt * N)) (dn : option msg) : bool :=
+  match wtry with Some (d, _, _, _, _) => list_eqb quest_eqb (m_q d) (product_q q) | None => true end
+  && match dn with Some m => list_eqb quest_eqb (m_q m) (product_q q) | None => true end.
+Definition hit_producer_ok (q : msg) (kind : N) (hops : list hdr) (subs : list sub)
            (wtry : option (msg * bool * bool * option eopt * N)) (dn : option msg) : bool :=
-  match hit_producer kind hops with
-  | None => true
-  | Some p =>
-      match produce p (m_hdr q) with
-      | None => false
-      | Some (h, iad) =>
-          match wtry with
-          | Some (d, iad', _, _, _) => hdr_eqb (m_hdr d) h && Bool.eqb iad iad'
+  hit_q_ok q wtry dn
+  && ((kind =? 2)
+      || (match wtry with
+          | Some (d, iad', _, _, _) =>
+              match hit_producer kind hops with
+              | Some p => match produce p (m_hdr q) with
+                          | Some (h, iad) => hdr_eqb (m_hdr d) h && Bool.eqb iad iad'
+                          | None => false
+                          end
+              | None => false
+              end
           | None => true
           end
-          && (if kind =? 0 then match dn with Some m => hdr_eqb (m_hdr m) h | None => true end else true)
-          && (if kind =? 0 then true else negb (is_none wtry))
-      end
+          && match dn with
+             | Some m =>
+                 match hit_mproducer kind hops subs with
+                 | Some p => match produce_msg p (m_hdr q) with
+                             | Some h => hdr_eqb (m_hdr m) h
+                             | None => false
+                             end
+                 | None => false
+                 end
+             | None => true
+             end
+          && (if kind =? 1 then negb (is_none wtry) else true))).
+
+(* session 5 — what ResponseWriter.WriteWire relies on the caller for, checked on every body the cache
+   hands over: the body carries no OPT; WireInfo.HasDNSSEC is truthful in the direction the writer
+   uses it (false only for a body without RRSIG / NSEC / NSEC3 in answer and authority, or an RRSIG
+   question); the EDE it passes is an EDE; and when the writer accepts the body, the octets that
+   leave are the body plus the OPT the model attaches — the length the size theorem talks about *)
+Definition hit_wire_facts_ok (tr : transport) (c : cfg) (q : msg) (strict : bool)
+           (wtry : option (msg * bool * bool * option eopt * N)) (obs : option msg) (rlen : N) : bool :=
+  match wtry with
+  | None => true
+  | Some (d, iad, hasd, ede, blen) =>
+      let w := mk_wstate tr strict q (set_edns0 c q) in
+      forallb (fun x => negb (is_opt x)) (m_ex d)
+      && (hasd || match m_q q with x :: _ => q_type x =? type_rrsig | [] => false end || no_dnssec d)
+      && match ede with Some x => e_code x =? code_ede | None => true end
+      && match write_wire tr c w d iad hasd ede blen, obs with
+         | Some _, Some _ => rlen =? blen + (if w_noedns w then 0 else opt_len (wire_opt c w ede))
+         | _, _ => true
+         end
   end.
 
 Definition theader_eqb (a b : T_Header) : bool :=
@@ -314,7 +359,7 @@ Definition case_obs (x : case) : option msg :=
   | CaseWire _ _ _ _ _ _ _ _ _ _ _ obs _ _ _ => obs
   | CaseMsg _ _ _ _ _ _ obs _ _ _ => obs
   | CaseChain _ _ _ _ _ _ _ obs _ _ _ => obs
-  | CaseHit _ _ _ _ _ _ _ _ _ obs _ _ _ => obs
+  | CaseHit _ _ _ _ _ _ _ _ _ _ obs _ _ _ => obs
   | _ => None
   end.
 Definition bytes_eqb (a b : list N) : bool := list_eqb N.eqb a b.
@@ -339,7 +384,7 @@ Definition wire_octets_ok (tail : list N) (x : case) : bool :=
       | Some _ => w_noedns w || bytes_eqb (wire_opt_octets c w ede) tail
       | None => true
       end
-  | CaseHit tr c _ q strict _ _ (Some (d, iad, hasd, ede, blen)) _ (Some _) _ _ _ =>
+  | CaseHit tr c _ q strict _ _ _ (Some (d, iad, hasd, ede, blen)) _ (Some _) _ _ _ =>
       let w := mk_wstate tr strict q (set_edns0 c q) in
       match write_wire tr c w d iad hasd ede blen with
       | Some _ => w_noedns w || bytes_eqb (wire_opt_octets c w ede) tail
@@ -361,10 +406,11 @@ Fixpoint check_case (x : case) : bool :=
       omsg_eqb (option_map (transport_write tr) (edns_serve_c nt tr c q strict dn)) obs
       && lens_ok nt obs oulen oclen && omsg_wf nt dn
   | CaseRelax _ y => check_case y
-  | CaseHit tr c nt q strict kind hops wtry dn obs rlen oulen oclen =>
+  | CaseHit tr c nt q strict kind hops subs wtry dn obs rlen oulen oclen =>
       (* the generator sends opcode-0, version-0, single-question queries: the edns layer hands them on *)
       is_none (edns_serve_gen (fun _ d => d) tr c q strict None)
-      && omsg_eqb (hit_reply nt tr c q strict wtry dn) obs && hit_producer_ok q kind hops wtry dn
+      && omsg_eqb (hit_reply nt tr c q strict wtry dn) obs && hit_producer_ok q kind hops subs wtry dn
+      && hit_wire_facts_ok tr c q strict wtry obs rlen
       && lens_ok nt obs oulen oclen && omsg_wf nt dn
   | CaseSweep tr id qd an ns ar runs =>
       sweep_ok (fun fl o =>
@@ -387,7 +433,7 @@ Fixpoint spec_top (rx : N) (x : case) : bool :=
   | CaseWire tr c _ h body _ _ _ _ _ _ obs rlen _ _ => spec_raw rx tr c h body obs rlen
   | CaseMsg tr c _ q _ _ obs rlen _ _ => spec_msg rx tr c q obs rlen
   | CaseChain tr c _ q _ _ _ obs rlen _ _ => negb (length (m_q q) =? 1)%nat || spec_msg rx tr c q obs rlen
-  | CaseHit tr c _ q _ _ _ _ _ obs rlen _ _ => negb (length (m_q q) =? 1)%nat || spec_msg rx tr c q obs rlen
+  | CaseHit tr c _ q _ _ _ _ _ _ obs rlen _ _ => negb (length (m_q q) =? 1)%nat || spec_msg rx tr c q obs rlen
   | CaseRelax _ _ => true
     (* fewer than 12 octets: no header to answer to — the statement is silent, so is the server
        (judged on the packet's length alone: the oracle does not go through the translated parser) *)
